@@ -573,7 +573,7 @@ func init() {
 			}
 		}})
 		_ = bytes.Equal
-		us = append(us, coldUnit("nas.Message", "decode"))
+		us = append(us, coldUnits(tier, "nas.Message", "decode")...)
 		return us
 	}
 	core.Register(p)
